@@ -70,6 +70,14 @@ class C10(Prop):
             body = ''.join(rng.choice(gens.LABELS + gens.LATIN2 + gens.CJK + gens.COMBINING + ['\t', ' ']) for _ in range(rng.randint(1, 6)))
             A = [rng.choice(['', ' ', 'ab ']) + '"' + body + '"' for _ in range(rng.randint(1, 3))]
             out.append(self.make('quoted+box', A, gens.box(rng.randint(1, 4), rng.randint(1, 2)), rng.randint(1, 3), 'side'))
+        # a part with backslashes (diamonds, down-right diagonals) to the left of a part with quoted labels on the same rows: what a
+        # row of the left part contains must not change how the quotes of the right part pair up
+        for _ in range(40 if tier == 'quick' else 600):
+            k = rng.randint(1, 3)
+            A = rng.choice([[' ' * (k - 1 - i) + '/' + ' ' * (2 * i) + '\\' for i in range(k)] + [' ' * i + '\\' + ' ' * (2 * (k - 1 - i)) + '/' for i in range(k)],
+                            [' ' * i + '\\' for i in range(2 * k)], ['\\  /', ' \\/'], ['a\\b', 'c\\\\d']])
+            B = [rng.choice(['', ' ', '-- ']) + '"' + rng.choice(['in|out', 'a-b', 'x', '+--+', 'é一']) + '"' + rng.choice(['', ' |', '--']) for _ in range(len(A))]
+            out.append(self.make('backslash+quoted', A, B, rng.randint(1, 3), 'side'))
         for _ in range(12 if tier == 'quick' else 200):
             tall = gens.box(rng.randint(2, 8), rng.randint(18, 40))
             out.append(self.make('tall+text', tall, bigtext(rng) + bigtext(rng), rng.choice([1, 3]), 'side'))
